@@ -349,6 +349,94 @@ def run(ctx: Context, rep) -> None:
            where="shard_writer_flatbuffer",
            construct=f"{n_fb} builder API call(s), no field assignment",
            message="the builder is used through its API")
+    # ---------------------------------------------------------------------
+    # a rejected write leaves no trace in the writer object either: besides
+    # the example store of the commit table, _write keeps no per-writer state
+    # that a later write or close() reads, and its error paths do not touch
+    # the writer
+    rep.rule(
+        "C18.state",
+        "in every shard writer's _write: (a) the only attributes of self "
+        "that are mutated are the commit-table store, the lazily created "
+        "resource (assigned under `if self.X is None` / `if not self.X`) and "
+        "calls on the FlatBuffers builder; (b) no except / finally block "
+        "assigns an attribute of self or closes / resets a resource")
+    wbase = ctx.repo.cls("sedpack.io.shard.shard_writer_base:ShardWriterBase")
+    n_w = 0
+    for ci in ctx.repo.subclasses(wbase):
+        w = ci.methods.get("_write")
+        if w is None or ci.name not in COMMIT_TABLE:
+            continue
+        n_w += 1
+        field = COMMIT_TABLE[ci.name][0]
+        bad_state = []
+        # locals that name an attribute of self (x = self._y): mutating them
+        # mutates the writer
+        alias = {}
+        for n in w.body_nodes():
+            if isinstance(n, (ast.Assign, ast.AnnAssign)) and n.value is not None:
+                t0 = n.targets[0] if isinstance(n, ast.Assign) else n.target
+                dv = dotted(n.value) or ""
+                if isinstance(t0, ast.Name) and dv.startswith("self."):
+                    alias[t0.id] = dv
+        for n in w.body_nodes():
+            tgts = []
+            if isinstance(n, ast.Assign):
+                tgts = list(n.targets)
+            elif isinstance(n, (ast.AugAssign, ast.AnnAssign)):
+                tgts = [n.target]
+            for t in tgts:
+                base = t.value if isinstance(t, ast.Subscript) else t
+                d = dotted(base) or ""
+                if not d.startswith("self.") or d == f"self.{field}":
+                    continue
+                # lazily created resource: assignment guarded by a test of
+                # the same attribute being unset
+                guard = parent(n)
+                lazy = isinstance(guard, ast.If) and d in ast.unparse(
+                    guard.test) and not isinstance(t, ast.Subscript)
+                if not lazy:
+                    bad_state.append((n, f"assigns {d}"))
+            if isinstance(n, ast.Call) and isinstance(n.func, ast.Attribute) \
+                    and n.func.attr in ("append", "extend", "insert", "add",
+                                        "update", "setdefault", "pop", "clear",
+                                        "remove"):
+                d = dotted(n.func.value) or ""
+                d = alias.get(d, d)
+                if d.startswith("self.") and d != f"self.{field}" and \
+                        not d.startswith(f"self.{field}"):
+                    bad_state.append((n, f"mutates {d}"))
+        rep.ob("C18.state", not bad_state,
+               loc=w.loc(bad_state[0][0]) if bad_state else w.loc(),
+               where=w.qualname,
+               construct=(f"{bad_state[0][1]}: {short(bad_state[0][0], 60)}"
+                          if bad_state else
+                          f"only self.{field} (and lazily created resources)"),
+               message="per-writer state other than the example store "
+               "survives a rejected write and leaks into the next example")
+        bad_err = []
+        for t in [x for x in w.body_nodes() if isinstance(x, ast.Try)]:
+            for blk in [h.body for h in t.handlers] + [t.finalbody]:
+                for s in blk:
+                    for x in ast.walk(s):
+                        if isinstance(x, (ast.Assign, ast.AugAssign)) and any(
+                                (dotted(tg.value if isinstance(tg, ast.Subscript)
+                                        else tg) or "").startswith("self.")
+                                for tg in (x.targets if isinstance(
+                                    x, ast.Assign) else [x.target])):
+                            bad_err.append(x)
+                        if isinstance(x, ast.Call) and isinstance(
+                                x.func, ast.Attribute) and x.func.attr in (
+                                    "close", "flush", "clear") and (dotted(
+                                        x.func.value) or "").startswith("self."):
+                            bad_err.append(x)
+        rep.ob("C18.state", not bad_err,
+               loc=w.loc(bad_err[0]) if bad_err else w.loc(), where=w.qualname,
+               construct=short(bad_err[0], 70) if bad_err else
+               "error paths leave the writer untouched",
+               message="a rejected write must not close, reset or rebind the "
+               "writer's resources (re-opening truncates the shard)")
+    rep.floor("C18.state", n_w, 3, "writers")
 
 
 
